@@ -85,7 +85,9 @@ PROPS = {
                                'topic before it is told its partitions; two instances running concurrently are not modelled (a revoked instance emits '
                                'nothing by C09_revoke_stops).  The 10 s refresh ticker is not modelled: Refresh is an op that may occur anywhere.  spec_c09 '
                                'soundness for the model (C09_spec_sound_partial): PROVED for clauses 1 (refresh exactness incl. re-assignment iff changed), 4 (revoke '
-                               'stops) and 5 (owned set); ONLY EXERCISED for clauses 2/3 (hand-off / progress coverage through cover_fails).',
+                               'stops), 5 (owned set) and 6 (after a crash / hand-off the successor\'s tracker is the replay of everything broadcast or delivered so far: C09_successor_sound, '
+                               'C09_successor_is_replay; the harness hands over both to a restarted instance reading the compacted topic and to a live peer that received every broadcast as sent); '
+                               'ONLY EXERCISED for clauses 2/3 (hand-off / progress coverage through cover_fails).',
                     technique=_M, design_ref='DESIGN.md section 8, E4')),
     'C19': dict(engine='e4', n=dict(quick=3000, thorough=60000), components=[1, 5, 10, 11],
                 manifest=dict(
